@@ -55,6 +55,23 @@ class Prop:
         """case lines with the same group are evaluated in the same worker (metamorphic pairs)"""
         return line.split(' ', 1)[0]
 
+    def fail(self, stats, fails, kind, line, k, detail):
+        """record a failing case; failures matching an *open* known finding are counted apart and never use up the
+        per-worker cap (so they cannot hide a different violation)"""
+        import findings
+        global _KF
+        try:
+            kf = _KF
+        except NameError:
+            kf = _KF = findings.load()
+        hit = findings.match(kf, self.name, line, k, detail) if kind in ('pred', 'corr') else None
+        if hit:
+            known = stats.setdefault('known', {})
+            known[hit['id']] = known.get(hit['id'], 0) + 1
+            return
+        if sum(1 for f in fails if f[0] == kind) < 100:
+            fails.append((kind, line, k, detail))
+
     def check_chunk(self, by_id, impl, model, stats, fails):
         """default: every (case, input) on its own, through `compare`"""
         for key, mo in model.items():
@@ -77,12 +94,12 @@ class Prop:
                 stats['nontrivial'] += 1
             if not res['pred']:
                 stats['pred_fail'] += 1
-                if len(fails) < 200:
-                    fails.append(('pred', line, int(k), res.get('why', '') + f' || impl: {i_m} || model: {m_m} || spec: {m_s}'))
+                if True:
+                    self.fail(stats, fails, 'pred', line, int(k), res.get('why', '') + f' || impl: {i_m} || model: {m_m} || spec: {m_s}')
             elif not res['corr']:
                 stats['corr_disagree'] += 1
-                if len(fails) < 200:
-                    fails.append(('corr', line, int(k), f'impl: {i_m} || model: {m_m}'))
+                if True:
+                    self.fail(stats, fails, 'corr', line, int(k), f'impl: {i_m} || model: {m_m}')
             elif len(stats['samples']) < 2 and res.get('nontrivial'):
                 stats['samples'].append({'case': grammar_of(line), 'input_index': int(k), 'impl': i_m})
 
@@ -178,6 +195,11 @@ def stream_items(tier, seed, want):
     if 'c01' in want:
         for g in c01:
             add(g, inp01)
+        for g in gen.furthest_family():
+            add(g, inputs_all(4, [gen.A, gen.B, gen.EA]), prio=True)
+        for _ in range(1200 if tier == 'quick' else 12000):
+            add(gen.random_grammar(rng, rng.randint(3, 6), gen.C01_LEAVES, gen.C01_UNARIES, gen.C01_BINARIES, gen.C01_TERNARIES),
+                inputs_all(4, [gen.A, gen.B, gen.EA]))
     if 'c02' in want:
         inp02 = inputs_all(6 if tier != 'quick' else 5, gen.C02_ALPHA)
         its = gen.c02_iterators(gen.C02_ITEMS[:4], gen.C02_SEPS[:4], gen.bounds(3))
@@ -193,6 +215,21 @@ def stream_items(tier, seed, want):
                     add(c, inputs_all(3, gen.C02_ALPHA))
     base = [g for g in c01 if gen.size(g) >= 2]
     rng.shuffle(base)
+    if 'emit' in want:
+        inp_ab = inputs_all(4, [gen.A, gen.B])
+        for g in gen.abandon_family():
+            add(g, inp_ab, prio=True)
+    if 'rec' in want:
+        # nested recovery: an inner recovery that succeeds (emitting), then a later failure, then an outer strategy
+        nested = []
+        for g in base[:120]:
+            for w in gen.RECOVERIES[:3]:
+                for g2 in gen.insert_at_nodes(g, w)[:2]:
+                    for w2 in (gen.RECOVERIES[0], gen.RECOVERIES[2], gen.RECOVERIES[3]):
+                        nested.append(w2(('then', g2, ('just', [gen.B]))))
+                        nested.extend(gen.insert_at_nodes(g2, w2)[:1])
+        for g in nested:
+            add(g, inp01, prio=True)
     for key, wraps, cnt in (('emit', gen.EMITTERS, 600), ('rec', gen.RECOVERIES, 600), ('deco', gen.DECORATIONS, 600)):
         if key not in want:
             continue
@@ -246,6 +283,7 @@ class ALL(Prop):
         lines = []
         for n, (g, inputs, kw) in enumerate(stream_items(tier, seed, want)):
             kw = dict(kw)
+            kw.pop('prio', None)
             kind = kw.pop('kind', 'str' if n % 2 == 0 else 'slice')
             lines.append(case_line(f'a{n}', g, inputs, kind=kind, **kw))
         return lines
@@ -276,6 +314,7 @@ class C04(Prop):
             items = items[:6000]
         for n, (g, inputs, kw) in enumerate(items):
             kw = dict(kw)
+            kw.pop('prio', None)
             kind = kw.pop('kind', 'str' if n % 2 == 0 else 'slice')
             lines.append(case_line(f'x{n}p', g, inputs, kind=kind, mode='parse', **kw))
             lines.append(case_line(f'x{n}c', g, inputs, kind=kind, mode='check', **kw))
@@ -331,12 +370,12 @@ class C04(Prop):
                 stats['nontrivial'] += 2
             if not pred:
                 stats['pred_fail'] += 1
-                if len(fails) < 200:
-                    fails.append(('pred', line, int(k), f'check/parse (or the two formulations) differ || first: {ip} || second: {ic}'))
+                if True:
+                    self.fail(stats, fails, 'pred', line, int(k), f'check/parse (or the two formulations) differ || first: {ip} || second: {ic}')
             elif not corr:
                 stats['corr_disagree'] += 1
-                if len(fails) < 200:
-                    fails.append(('corr', line, int(k), f'impl: {ip} / {ic} || model: {mp} / {mc}'))
+                if True:
+                    self.fail(stats, fails, 'corr', line, int(k), f'impl: {ip} / {ic} || model: {mp} / {mc}')
             elif len(stats['samples']) < 2 and int(k) > 3:
                 stats['samples'].append({'case': grammar_of(line), 'input_index': int(k), 'parse': ip, 'check': ic})
 
@@ -362,11 +401,14 @@ class SpecProp(Prop):
         items = [it for it in stream_items(tier, seed, self.streams) if it[2].get('ek', 'rich') in self.ek_filter]
         rng = random.Random(seed)
         if tier == 'quick' and len(items) > self.quick_cap:
-            rng.shuffle(items)
-            items = items[:self.quick_cap]
+            prio = [it for it in items if it[2].get('prio')]
+            rest = [it for it in items if not it[2].get('prio')]
+            rng.shuffle(rest)
+            items = prio + rest[:max(0, self.quick_cap - len(prio))]
         lines = []
         for n, (g, inputs, kw) in enumerate(items):
             kw = dict(kw)
+            kw.pop('prio', None)
             kind = kw.pop('kind', 'str' if n % 2 == 0 else 'slice')
             lines.append(case_line(f's{n}', g, inputs, kind=kind, **kw))
         return lines
@@ -425,6 +467,7 @@ class C02(SpecProp):
         lines = []
         for n, (g, inputs, kw) in enumerate(items):
             kw = dict(kw)
+            kw.pop('prio', None)
             kind = kw.pop('kind', 'str' if n % 2 == 0 else 'slice')
             tag = 'w' if ill_formed_bounds(g) else 's'
             lines.append(case_line(f'{tag}{n}', g, inputs, kind=kind, **kw))
@@ -607,8 +650,10 @@ class C06(Prop):
         items = stream_items(tier, seed, ['c01', 'c02'])
         items = [it for it in items if 'not' not in gen.ops_of(it[0])]
         rng = random.Random(seed)
-        rng.shuffle(items)
-        items = items[:2500 if tier == 'quick' else 25000]
+        prio = [it for it in items if it[2].get('prio')]
+        rest = [it for it in items if not it[2].get('prio')]
+        rng.shuffle(rest)
+        items = prio + rest[:2000 if tier == 'quick' else 25000]
         lines = []
         for n, (g, inputs, kw) in enumerate(items):
             kind = 'str' if n % 2 == 0 else 'slice'
@@ -685,8 +730,8 @@ class C06(Prop):
                 stats['nontrivial'] += 4
             if why:
                 stats['pred_fail'] += 1
-                if len(fails) < 200:
-                    fails.append(('pred', line, k, '; '.join(why) + f' || impl: {obs["r"][0]} || model: {obs["r"][1]}'))
+                if True:
+                    self.fail(stats, fails, 'pred', line, k, '; '.join(why) + f' || impl: {obs["r"][0]} || model: {obs["r"][1]}')
             elif not corr:
                 stats['corr_disagree'] += 1
                 if len(fails) < 200:
@@ -769,12 +814,12 @@ class C17(Prop):
                 stats['nontrivial'] += 2
             if not pred:
                 stats['pred_fail'] += 1
-                if len(fails) < 200:
-                    fails.append(('pred', line, int(k), f'decorated and plain differ in acceptance / output / error count / spans || decorated: {ip} || plain: {ic}'))
+                if True:
+                    self.fail(stats, fails, 'pred', line, int(k), f'decorated and plain differ in acceptance / output / error count / spans || decorated: {ip} || plain: {ic}')
             elif not corr:
                 stats['corr_disagree'] += 1
-                if len(fails) < 200:
-                    fails.append(('corr', line, int(k), f'impl: {ip} / {ic} || model: {mp} / {mc}'))
+                if True:
+                    self.fail(stats, fails, 'corr', line, int(k), f'impl: {ip} / {ic} || model: {mp} / {mc}')
             elif len(stats['samples']) < 2 and int(k) > 3 and a.get('out') is None:
                 stats['samples'].append({'case': grammar_of(line), 'input_index': int(k), 'decorated': ip, 'plain': ic})
 
@@ -786,6 +831,12 @@ def err_span_of(e):
 
 class C20(Prop):
     name = 'C20'; module = 'C20'; claimed = True
+
+    def corpus(self):
+        # D15: Then of two iterators, progress assertion (known finding)
+        g = ('collect', 'vec', ('thenit', ('rep', ('any',), 0, None), ('ornotit', ('to', ('vtok', 7), ('empty',)))))
+        return [case_line('sD15', g, inputs_all(2, [53]))]
+
     title = 'parsing is total'
     bins = ALL.bins
     rule = ('union of all streams (C01, repetition incl. nullable items, emitters, recovery, decorations, context, state, four error '
@@ -805,6 +856,7 @@ class C20(Prop):
         pool = [0x61, 0x62, 0xe9, 0x301, 0x1D11E, 0x10FFFF, 0xD7FF, 0xE000, 0x0, 0x200D, 0xFEFF, 0x1F600, 0x20, 0x0A, 0x0D, 0x2C]
         for n, (g, inputs, kw) in enumerate(items):
             kw = dict(kw)
+            kw.pop('prio', None)
             kind = kw.pop('kind', 'str' if n % 2 == 0 else 'slice')
             extra = []
             for _ in range(4):
@@ -838,11 +890,45 @@ def proj_total(m):
     return (m['kind'], m.get('site'))
 
 
+def consumes(g):
+    """conservative: every successful match of g takes at least one token (python mirror of `G.consumes`)"""
+    op = g[0]
+    if op in ('any', 'oneof', 'noneof', 'select', 'cnext'):
+        return True
+    if op == 'just':
+        return len(g[1]) > 0
+    if op in ('then', 'ithen', 'theni', 'iwctx', 'twctx'):
+        return consumes(g[1]) or consumes(g[2])
+    if op == 'delim':
+        return consumes(g[1]) or consumes(g[2]) or consumes(g[3])
+    if op == 'padded':
+        return consumes(g[1]) or consumes(g[2])
+    if op in ('group', 'grouparr'):
+        return any(consumes(x) for x in g[1])
+    if op == 'or':
+        return consumes(g[1]) and consumes(g[2])
+    if op in ('choicet', 'choices'):
+        return len(g[1]) > 0 and all(consumes(x) for x in g[1])
+    if op in ('map', 'to', 'filter', 'label', 'maperr', 'withctx', 'mapctx', 'memo'):
+        return consumes(g[-1])
+    if op in ('ignored', 'tospan', 'toslice', 'mwspan', 'mwstate', 'mwctx', 'boxed', 'withstate'):
+        return consumes(g[1])
+    if op in ('trymap', 'trymapw', 'validate'):
+        return consumes(g[4])
+    if op == 'andis':
+        return consumes(g[1])
+    if op == 'recvia':
+        return consumes(g[1]) and consumes(g[2])
+    return False
+
+
 def ill_formed_items(g):
     """a repetition whose item may succeed without consuming (the debug assertions may fire)"""
     for t in gen.subterms(g):
-        if t[0] in ('rep', 'sep') and t[1] in gen.C02_NULLABLE_ITEMS:
+        if t[0] in ('rep', 'sep') and not consumes(t[1]):
             return True
+        if t[0] == 'ornotit' and not consumes(t[1]):
+            pass
     return False
 
 
@@ -972,12 +1058,12 @@ class C11(Prop):
                 corr = (ip == mp) and (ic == mc)
             if not pred:
                 stats['pred_fail'] += 1
-                if len(fails) < 200:
-                    fails.append(('pred', line, int(k), f'{why} || memoized: {ip} || plain: {ic}'))
+                if True:
+                    self.fail(stats, fails, 'pred', line, int(k), f'{why} || memoized: {ip} || plain: {ic}')
             elif not corr:
                 stats['corr_disagree'] += 1
-                if len(fails) < 200:
-                    fails.append(('corr', line, int(k), f'impl: {ip} / {ic} || model: {mp} / {mc}'))
+                if True:
+                    self.fail(stats, fails, 'corr', line, int(k), f'impl: {ip} / {ic} || model: {mp} / {mc}')
             elif len(stats['samples']) < 2 and int(k) > 3:
                 stats['samples'].append({'case': grammar_of(line), 'input_index': int(k), 'memoized': ip, 'plain': ic})
 
@@ -1071,12 +1157,12 @@ class C12(Prop):
                 stats['nontrivial'] += 2
             if not pred:
                 stats['pred_fail'] += 1
-                if len(fails) < 200:
-                    fails.append(('pred', line, int(k), f'recursive parser and its unrolling differ || recursive: {ip} || unrolled: {ic}'))
+                if True:
+                    self.fail(stats, fails, 'pred', line, int(k), f'recursive parser and its unrolling differ || recursive: {ip} || unrolled: {ic}')
             elif not corr:
                 stats['corr_disagree'] += 1
-                if len(fails) < 200:
-                    fails.append(('corr', line, int(k), f'impl: {ip} / {ic} || model: {mp} / {mc}'))
+                if True:
+                    self.fail(stats, fails, 'corr', line, int(k), f'impl: {ip} / {ic} || model: {mp} / {mc}')
             elif len(stats['samples']) < 2 and a.get('out') is not None and int(k) > 20:
                 stats['samples'].append({'case': grammar_of(line), 'input_index': int(k), 'recursive': ip, 'unrolled': ic})
 
@@ -1167,7 +1253,321 @@ class C13(Prop):
         return tot, fails
 
 
-PROPS = {p.name: p for p in [C01(), ALL(), C04(), C02(), C03(), C05(), C08(), C15(), C18(), C06(), C17(), C20(), C11(), C12(), C13()]}
+
+# ------------------------------------------------------------------------------------------------
+# C14: text parsers
+
+T_ALPHA = [48, 49, 55, 97, 90, 95, 32, 13, 10, 233, 45, 44]      # 0 1 7 a Z _ space CR LF e-acute - ,
+T_UNI = [0x0B, 0x0C, 0x09, 0x85, 0xA0, 0x1680, 0x2028, 0x2029, 0x3000, 0x3B1, 0x4E2D, 0x301, 0xB7, 0x660, 0xAA, 0xB5, 0xC3, 0xA9, 0xD7, 0x1D11E]
+XID_START = {0xAA, 0xB5, 0xBA, 0xC3, 0xE9, 0x3B1, 0x4E2D}
+XID_CONT_ONLY = {0xB7, 0x301, 0x660}
+UNI_WS = set(range(9, 14)) | {32, 0x85, 0xA0, 0x1680, 0x2028, 0x2029, 0x202F, 0x205F, 0x3000} | set(range(0x2000, 0x200B))
+
+
+def t_digit(r, c):
+    if 48 <= c <= 57:
+        d = c - 48
+    elif 97 <= c <= 122:
+        d = c - 97 + 10
+    elif 65 <= c <= 90:
+        d = c - 65 + 10
+    else:
+        return False
+    return d < r
+
+
+def t_alpha(c):
+    return 65 <= c <= 90 or 97 <= c <= 122
+
+
+def t_alnum(c):
+    return t_alpha(c) or 48 <= c <= 57
+
+
+def t_run(pred, toks, i):
+    while i < len(toks) and pred(toks[i]):
+        i += 1
+    return i
+
+
+def text_oracle(inst, pname, params, toks):
+    """the documented language of each text parser: (slice start, slice end, end position) or None"""
+    r = params[0] if params else 10
+    ws = (lambda c: c in UNI_WS) if inst == 'char' else (lambda c: c in (9, 10, 11, 12, 13, 32))
+    if pname == 'ws':
+        e = t_run(ws, toks, 0)
+        return (0, e, e)
+    if pname == 'iws':
+        e = t_run(lambda c: c in (32, 9), toks, 0)
+        return (0, e, e)
+    if pname == 'digits':
+        e = t_run(lambda c: t_digit(r, c), toks, 0)
+        return (0, e, e) if e > 0 else None
+
+    def int_at(i):
+        if i < len(toks) and toks[i] == 48:
+            return i + 1
+        e = t_run(lambda c: t_digit(r, c), toks, i)
+        return e if e > i else None
+
+    def aident_at(i):
+        if i < len(toks) and toks[i] < 128 and (t_alpha(toks[i]) or toks[i] == 95):
+            return t_run(lambda c: c < 128 and (t_alnum(c) or c == 95), toks, i + 1)
+        return None
+    if pname == 'int':
+        e = int_at(0)
+        return (0, e, e) if e is not None else None
+    if pname == 'aident':
+        e = aident_at(0)
+        return (0, e, e) if e is not None else None
+    if pname == 'uident':
+        start = lambda c: t_alpha(c) or c == 95 or c in XID_START
+        cont = lambda c: t_alnum(c) or c == 95 or c in XID_START or c in XID_CONT_ONLY
+        if toks and start(toks[0]):
+            e = t_run(cont, toks, 1)
+            return (0, e, e)
+        return None
+    if pname in ('akw', 'ukw'):
+        base = text_oracle(inst, 'aident' if pname == 'akw' else 'uident', [], toks)
+        if base and toks[:base[1]] == list(params):
+            return base
+        return None
+    if pname == 'newline':
+        if toks[:2] == [13, 10]:
+            return (0, 2, 2)
+        if toks and toks[0] in (10, 13, 11, 12, 0x85, 0x2028, 0x2029):
+            return (0, 1, 1)
+        return None
+    if pname in ('pad_int', 'pad_aident'):
+        s0 = t_run(ws, toks, 0)
+        e = int_at(s0) if pname == 'pad_int' else aident_at(s0)
+        if e is None:
+            return None
+        return (s0, e, t_run(ws, toks, e))
+    return None
+
+
+def _text_worker(args):
+    import subprocess, vcheck as vc
+    lines = args
+    text = '\n'.join(lines) + '\n'
+    pi = subprocess.run([os.path.join(vc.HBIN_DIR, 'h_text')], input=text, stdout=subprocess.PIPE, stderr=subprocess.PIPE, text=True, timeout=1800)
+    pm = subprocess.run([vc.DRIVER], input=text, stdout=subprocess.PIPE, stderr=subprocess.PIPE, text=True, timeout=1800)
+    return pi.returncode, pi.stdout, pm.returncode, pm.stdout
+
+
+class C14(Prop):
+    name = 'C14'; module = 'C14'; claimed = False
+    title = 'text parsers recognise exactly their documented languages'
+    bins = ['h_text']
+    rule = ('int/digits with radix 2,8,10,16,36; ascii and unicode ident; keywords; whitespace, inline_whitespace, newline; padded; each on '
+            'all strings up to the bound over the 12-character alphabet {0 1 7 a Z _ space CR LF e-acute - ,}, every single ASCII character '
+            '(and CR/LF pairs), and seeded random strings over Unicode white space / line terminators / XID samples; &str and &[u8]; '
+            'observation = (matched slice, end position); non-trivial = non-empty input')
+    level_text = ('theorems: each text parser (transcribed as a derived parser over the Char class record) accepts exactly its documented '
+                  'language and returns the matched slice; char and u8 instances agree on ASCII; the real parsers compared with the model, '
+                  'with an independent oracle of the documented languages, and &str against &[u8]')
+
+    def cases(self, tier, seed):
+        rng = random.Random(seed)
+        maxlen = 4 if tier == 'quick' else 5
+        inp = inputs_all(maxlen, T_ALPHA)
+        singles = ' '.join(inputs_lit([c]) for c in range(128)) + ' ' + ' '.join(inputs_lit([a, b]) for a in (13, 10, 32, 48, 97) for b in (13, 10, 11, 48, 95))
+        rnd = []
+        for _ in range(300 if tier == 'quick' else 3000):
+            n = rng.randint(1, 6)
+            rnd.append(inputs_lit([rng.choice(T_UNI) if rng.random() < 0.5 else rng.choice(T_ALPHA) for _ in range(n)]))
+        rnd_u8 = []
+        for _ in range(300 if tier == 'quick' else 3000):
+            n = rng.randint(1, 6)
+            rnd_u8.append(inputs_lit([rng.choice([c for c in T_UNI if c < 256] + [0xE9, 0x80]) if rng.random() < 0.5 else rng.choice(T_ALPHA) for _ in range(n)]))
+        configs = []
+        for r in (2, 8, 10, 16, 36):
+            configs += [('int', [r]), ('digits', [r]), ('pad_int', [r])]
+        configs += [('aident', []), ('uident', []), ('ws', []), ('iws', []), ('newline', []), ('pad_aident', []),
+                    ('akw', [97]), ('akw', [97, 90]), ('akw', [95, 49]), ('akw', [97, 97, 97]), ('ukw', [233, 97]), ('ukw', [97])]
+        lines = []
+        n = 0
+        for pname, params in configs:
+            ps = f'{len(params)} ' + ' '.join(str(x) for x in params)
+            for inst in ('char', 'u8'):
+                if pname == 'newline' and inst == 'u8':
+                    continue          # `text::newline` does not compile for &[u8] (bound `&str: OrderedSeq<u8>`)
+                extra = ' '.join(rnd) if inst == 'char' else ' '.join(rnd_u8)
+                lines.append(f'T x{n}{inst[0]} {inst} {pname} {ps} I {inp} {singles} {extra}'.replace('  ', ' '))
+            n += 1
+        return lines
+
+    def custom_run(self, lines, tier, seed, jobs):
+        import multiprocessing
+        with multiprocessing.Pool(jobs) as pool:
+            results = pool.map(_text_worker, [[l] for l in lines])
+        tot = {'pairs': 0, 'corr_disagree': 0, 'pred_fail': 0, 'outcomes': {}, 'impl_s': 0.0, 'model_s': 0.0, 'crash': None,
+               'samples': [], 'nontrivial': 0}
+        fails = []
+        obs = {}
+        for (line,), (rci, oi, rcm, om) in zip([[l] for l in lines], results):
+            if rci != 0 or rcm != 0:
+                tot['crash'] = f'h_text rc={rci} driver rc={rcm}'
+            t = line.split()
+            cid, inst, pname = t[1], t[2], t[3]
+            np_ = int(t[4]); params = [int(x) for x in t[5:5 + np_]]
+            inputs = expand_inputs(t[6 + np_:])
+            di = dict(l.split(' M ', 1) for l in oi.split('\n') if ' M ' in l)
+            dm = dict(l.split(' M ', 1) for l in om.split('\n') if ' M ' in l)
+            for k, toks in enumerate(inputs):
+                key = f'{cid}.{k}'
+                a, b = di.get(key), dm.get(key)
+                tot['pairs'] += 1
+                if toks:
+                    tot['nontrivial'] += 1
+                if a is None:
+                    fails.append(('missing', None, 0, f'{key}: no implementation observation for {pname} {params} on {toks}'))
+                    continue
+                oc = a.split(' ')[0]
+                tot['outcomes'][oc] = tot['outcomes'].get(oc, 0) + 1
+                want = text_oracle(inst, pname, params, toks)
+                want_s = 'none' if want is None else 'ok %d %d %d' % want
+                obs[(cid[:-1], inst, k)] = (a, toks, pname, params)
+                if a != want_s:
+                    tot['pred_fail'] += 1
+                    if True:
+                        self.fail(tot, fails, 'pred', None, 0, f'D?? text::{pname}{params} [{inst}] on {toks} ({"".join(chr(c) for c in toks)!r}): got {a}, documented language gives {want_s} (model: {b})')
+                elif a != b:
+                    tot['corr_disagree'] += 1
+                    if True:
+                        self.fail(tot, fails, 'corr', None, 0, f'text::{pname}{params} [{inst}] on {toks}: impl {a} model {b}')
+                elif len(tot['samples']) < 3 and len(toks) >= 3 and oc == 'ok':
+                    tot['samples'].append({'parser': pname, 'params': params, 'instance': inst, 'input': toks, 'observation': a})
+        # &str and &[u8] agree on ASCII text
+        for (cid, inst, k), (a, toks, pname, params) in obs.items():
+            if inst != 'char' or any(c >= 128 for c in toks):
+                continue
+            o = obs.get((cid, 'u8', k))
+            if o and o[1] == toks and o[0] != a:
+                tot['pred_fail'] += 1
+                if True:
+                    self.fail(tot, fails, 'pred', None, 0, f'ASCII-AGREE text::{pname}{params} on {toks}: &str gives {a}, &[u8] gives {o[0]}')
+        return tot, fails
+
+
+
+def _pratt_worker(args):
+    import subprocess, vcheck as vc
+    lines = args
+    text = '\n'.join(lines) + '\n'
+    pi = subprocess.run([os.path.join(vc.HBIN_DIR, 'h_pratt')], input=text, stdout=subprocess.PIPE, stderr=subprocess.PIPE, text=True, timeout=1800)
+    pm = subprocess.run([vc.DRIVER], input=text, stdout=subprocess.PIPE, stderr=subprocess.PIPE, text=True, timeout=1800)
+    return pi.returncode, pi.stdout, pm.returncode, pm.stdout
+
+
+class C09(Prop):
+    name = 'C09'; module = 'C09'; claimed = True
+    title = 'Pratt parsing respects binding power and associativity and preserves token order'
+    bins = ['h_pratt']
+    rule = ('seeded random operator tables of 1-6 operators (prefix, postfix, left/right infix) over the symbols {+ - * !} with 4 power '
+            'levels (the same symbol allowed as prefix and infix, equal powers with different associativities), atoms {x y}; all token '
+            'strings up to the bound over the 6 symbols; every table built as a Vec of boxed operators and as a tuple; parse and check; '
+            'observation = the fully parenthesised tree (with the span given to each fold callback) and errors; non-trivial = input with '
+            'at least one operator symbol')
+    level_text = ('refinement theorem prattGo -> textbook binding-power reading for every table/input, shape (power-respecting), maximality '
+                  '(missing operand left unconsumed) and token-order theorems (Lean); trees of the real crate compared with the reading and '
+                  'the model, Vec and tuple tables against each other')
+
+    def cases(self, tier, seed):
+        rng = random.Random(seed)
+        syms = [43, 45, 42, 33]
+        alpha = [120, 121] + syms
+        ntab = 150 if tier == 'quick' else 1500
+        maxlen = 5 if tier == 'quick' else 7
+        lines = []
+        for n in range(ntab):
+            nops = rng.randint(1, 6)
+            ops = []
+            for _ in range(nops):
+                kind = rng.choice(['infixl', 'infixr', 'prefix', 'postfix'])
+                bp = rng.randint(1, 4)
+                sym = rng.choice(syms)
+                ops.append(f'{kind} {bp} just 1 {sym}')
+            body = f'A oneof 2 120 121 O {nops} ' + ' '.join(ops) + ' I ' + inputs_all(maxlen, alpha)
+            kind = 'str'
+            for fl in ('v', 't'):
+                for mode in ('parse', 'check'):
+                    lines.append(f'PR {fl}{n}{mode[0]} rich {kind} {mode} 80 {body}')
+        # operators and atoms that are real grammars (multi-token operators, optional parts)
+        extra = [
+            ('A or oneof 2 120 121 delim just 1 120 just 1 45 just 1 45', ['infixl 1 then just 1 43 ornot just 1 43', 'postfix 2 just 2 33 33', 'prefix 3 just 1 45']),
+            ('A collect count rep just 1 120 1 -', ['infixr 2 just 1 42', 'infixl 2 just 1 43', 'postfix 1 just 1 33']),
+        ]
+        for i, (atom, ops) in enumerate(extra):
+            body = f'{atom} O {len(ops)} ' + ' '.join(ops) + ' I ' + inputs_all(maxlen, alpha)
+            for fl in ('v', 't'):
+                lines.append(f'PR {fl}x{i}p rich str parse 80 {body}')
+        return lines
+
+    def custom_run(self, lines, tier, seed, jobs):
+        import multiprocessing
+        n = max(1, min(jobs * 2, len(lines)))
+        chunks = [lines[i::n] for i in range(n)]
+        with multiprocessing.Pool(jobs) as pool:
+            results = pool.map(_pratt_worker, [c for c in chunks if c])
+        tot = {'pairs': 0, 'corr_disagree': 0, 'pred_fail': 0, 'outcomes': {}, 'impl_s': 0.0, 'model_s': 0.0, 'crash': None,
+               'samples': [], 'nontrivial': 0}
+        fails = []
+        impl, model = {}, {}
+        for rci, oi, rcm, om in results:
+            if rci != 0 or rcm != 0:
+                tot['crash'] = f'h_pratt rc={rci} driver rc={rcm}'
+            for l in oi.split('\n'):
+                sp = l.split(' ', 2)
+                if len(sp) == 3:
+                    impl.setdefault(sp[0], {})[sp[1]] = sp[2]
+            for l in om.split('\n'):
+                sp = l.split(' ', 2)
+                if len(sp) == 3:
+                    model.setdefault(sp[0], {})[sp[1]] = sp[2]
+        by_id = {l.split(' ')[1]: l for l in lines}
+        for key, mo in model.items():
+            cid, _, k = key.rpartition('.')
+            line = by_id.get(cid)
+            if line is None:
+                continue
+            k = int(k)
+            a = impl.get(key, {}).get('M')
+            tot['pairs'] += 1
+            if a is None:
+                fails.append(('missing', None, 0, f'{key}: no implementation observation'))
+                continue
+            im, ss = parse_M(a), parse_S(mo.get('S', ''))
+            oc = im['kind'] + ('+' if im.get('out') is not None else '-')
+            tot['outcomes'][oc] = tot['outcomes'].get(oc, 0) + 1
+            if k > 0:
+                tot['nontrivial'] += 1
+            mode_check = ' check ' in line[:40]
+            want = spec_accept_value(ss)
+            got = proj_accept_value(im)
+            if mode_check and want[0] == 'R' and want[1] is not None:
+                want = ('R', 'u')
+            pred = got == want
+            why = 'tree / acceptance differs from the binding-power reading'
+            # Vec and tuple tables behave identically
+            if cid[0] == 'v':
+                other = impl.get('t' + cid[1:] + '.' + str(k), {}).get('M')
+                if other is not None and other != a:
+                    pred = False
+                    why = f'Vec table and tuple table differ: tuple gives {other}'
+            if not pred:
+                tot['pred_fail'] += 1
+                self.fail(tot, fails, 'pred', None, 0, f'{why} || table: {line.partition(" I ")[0]} || input #{k} || impl: {a} || spec: {mo.get("S")}')
+            elif a != mo.get('M'):
+                tot['corr_disagree'] += 1
+                self.fail(tot, fails, 'corr', None, 0, f'table: {line.partition(" I ")[0]} || input #{k} || impl: {a} || model: {mo.get("M")}')
+            elif len(tot['samples']) < 3 and im.get('out') is not None and k > 300:
+                tot['samples'].append({'table': line.partition(' I ')[0], 'input_index': k, 'tree': a})
+        return tot, fails
+
+
+PROPS = {p.name: p for p in [C01(), ALL(), C04(), C02(), C03(), C05(), C08(), C15(), C18(), C06(), C17(), C20(), C11(), C12(), C13(), C14(), C09()]}
 for _s in ['c01', 'c02', 'emit', 'rec', 'deco', 'ctx', 'ek', 'state']:
     PROPS['ALL_' + _s] = ALL([_s])
     PROPS['ALL_' + _s].name = 'ALL_' + _s
